@@ -1,0 +1,74 @@
+//go:build verif
+
+// Contracts for the gowp verifier (/verif). Comment-only file: compiled only with -tags verif and
+// contributes no code either way.
+
+package invoices
+
+//@ spec func cltvOK(expiry int, height int, rejectDelta int, invDelta int) bool =
+//@      expiry >= height + rejectDelta && expiry >= height + invDelta
+//@
+//@ func updateMpp
+//@   props C15
+//@   requires 0 <= ctx.currentHeight && ctx.currentHeight <= 1<<30
+//@   requires 0 <= ctx.finalCltvRejectDelta && ctx.finalCltvRejectDelta <= 1<<20
+//@   requires 0 <= inv.Terms.FinalCltvDelta && inv.Terms.FinalCltvDelta <= 1<<20
+//@   requires inv.State <= ContractAccepted
+//@   loop 0 step newSetTotal == wrap(prev(newSetTotal) + htlc.Amt, 64) && totalAmt == htlc.MppTotalAmt
+//@   site call HTLCSet: assert arg(setID) == ret(setID) && arg(state) == HtlcStateAccepted && arg(0) == inv
+//@   site call bytes.Equal: assert arg(0) == paymentAddr && arg(1) == sliceof(inv.Terms.PaymentAddr)
+//@   site call settleRes: assert inv.State == ContractOpen && !inv.HodlInvoice && ret(Equal) &&
+//@        totalAmt != 0 && totalAmt >= inv.Terms.Value && newSetTotal >= totalAmt &&
+//@        cltvOK(ctx.expiry, ctx.currentHeight, ctx.finalCltvRejectDelta, inv.Terms.FinalCltvDelta) &&
+//@        arg(outcome) == ResultSettled &&
+//@        (ctx.amp == nil ==> arg(preimage) == *inv.Terms.PaymentPreimage) &&
+//@        (ctx.amp != nil ==> retn(reconstructAMPPreimages, 1) == nil)
+//@   site call acceptRes: assert inv.State == ContractOpen && ret(Equal) &&
+//@        totalAmt != 0 && totalAmt >= inv.Terms.Value &&
+//@        cltvOK(ctx.expiry, ctx.currentHeight, ctx.finalCltvRejectDelta, inv.Terms.FinalCltvDelta)
+//@   site store InvoiceStateUpdateDesc.NewState: assert inv.State == ContractOpen &&
+//@        (value == ContractSettled  ==> newSetTotal >= totalAmt && !inv.HodlInvoice) &&
+//@        (value == ContractAccepted ==> newSetTotal >= totalAmt && inv.HodlInvoice) &&
+//@        (value == ContractCanceled ==> ctx.amp != nil && retn(reconstructAMPPreimages, 1) != nil) &&
+//@        (value == ContractSettled || value == ContractAccepted || value == ContractCanceled)
+//@
+//@ func updateLegacy
+//@   props C15
+//@   requires 0 <= ctx.currentHeight && ctx.currentHeight <= 1<<30
+//@   requires 0 <= ctx.finalCltvRejectDelta && ctx.finalCltvRejectDelta <= 1<<20
+//@   requires 0 <= inv.Terms.FinalCltvDelta && inv.Terms.FinalCltvDelta <= 1<<20
+//@   requires inv.State <= ContractAccepted
+//@   loop * havoc
+//@   site call settleRes: assert !ret(IsAMP) && inv.State != ContractCanceled && ctx.amtPaid >= inv.Terms.Value &&
+//@        (ret(RequiresFeature) ==> ret(isValidKeySend)) &&
+//@        cltvOK(ctx.expiry, ctx.currentHeight, ctx.finalCltvRejectDelta, inv.Terms.FinalCltvDelta) &&
+//@        inv.Terms.PaymentPreimage != nil && arg(preimage) == *inv.Terms.PaymentPreimage &&
+//@        (arg(outcome) == ResultSettled ==> inv.State == ContractOpen && !inv.HodlInvoice) &&
+//@        (arg(outcome) == ResultDuplicateToSettled ==> inv.State == ContractSettled) &&
+//@        (arg(outcome) == ResultSettled || arg(outcome) == ResultDuplicateToSettled)
+//@   site call acceptRes: assert !ret(IsAMP) && inv.State != ContractCanceled && ctx.amtPaid >= inv.Terms.Value &&
+//@        (ret(RequiresFeature) ==> ret(isValidKeySend)) &&
+//@        cltvOK(ctx.expiry, ctx.currentHeight, ctx.finalCltvRejectDelta, inv.Terms.FinalCltvDelta)
+//@   site call RequiresFeature: assert arg(1) == lnwire.PaymentAddrRequired && arg(0) == inv.Terms.Features
+//@   site store InvoiceStateUpdateDesc.NewState: assert inv.State == ContractOpen &&
+//@        (value == ContractSettled ==> !inv.HodlInvoice) && (value == ContractAccepted ==> inv.HodlInvoice) &&
+//@        (value == ContractSettled || value == ContractAccepted)
+//@
+//@ func resolveReplayedHtlc
+//@   props C15
+//@   site call settleRes: assert htlc.State == HtlcStateSettled && arg(outcome) == ResultReplayToSettled &&
+//@        (ret(IsAMP)  ==> ret(Matches, 0) && htlc.AMP.Hash == ctx.hash && arg(preimage) == *htlc.AMP.Preimage) &&
+//@        (!ret(IsAMP) ==> ret(Matches, 1) && arg(preimage) == *inv.Terms.PaymentPreimage)
+//@   site call Matches nth 0: assert arg(0) == htlc.AMP.Preimage && arg(1) == htlc.AMP.Hash
+//@   site call Matches nth 1: assert arg(0) == inv.Terms.PaymentPreimage && arg(1) == ctx.hash
+//@   site call failRes: assert htlc.State == HtlcStateCanceled && arg(outcome) == ResultReplayToCanceled
+//@   site call acceptRes: assert htlc.State == HtlcStateAccepted
+//@
+//@ func updateInvoice
+//@   props C15
+//@   requires 0 <= ctx.currentHeight && ctx.currentHeight <= 1<<30
+//@   requires 0 <= ctx.finalCltvRejectDelta && ctx.finalCltvRejectDelta <= 1<<20
+//@   requires 0 <= inv.Terms.FinalCltvDelta && inv.Terms.FinalCltvDelta <= 1<<20
+//@   requires inv.State <= ContractAccepted
+//@   site call updateLegacy: assert ctx.mpp == nil && ctx.pathID == nil && ctx.amp == nil && arg(ctx) == ctx && arg(inv) == inv
+//@   site call updateMpp: assert (ctx.mpp != nil || ctx.pathID != nil) && arg(ctx) == ctx && arg(inv) == inv
